@@ -351,6 +351,11 @@ func (d *Decoder) scan(data []byte, atEOF bool) (advance int, token []byte, err 
 
 	// Look for new blocks
 	switch l := startsBlockQuote(data); {
+	case l > 0 && l == len(data) && !atEOF:
+		// The block quote start token includes the whitespace after the ">", and
+		// more of it may follow in the next read: request more data so that the
+		// tokens do not depend on how the input is split across reads.
+		return 0, nil, nil
 	case l > 0 && !d.quoteStarted:
 		// If we haven't yet consumed our block quote start token, do so.
 		d.mask |= BlockQuote | BlockQuoteStart
